@@ -23,6 +23,8 @@ def _volratio(c, names, i):
 def _xb_true(run, p):
     """Independent precipitate composition per phase for stoichiometric analytic phases, else None."""
     th = run['therm']
+    if not hasattr(th, 'prec'):
+        return None            # real backend: the precipitate composition comes from the model's own table
     nm = th.phases[1 + p]
     ph = th.prec[nm]
     if hasattr(ph, 'gba'):
